@@ -22,7 +22,7 @@ RULE = ("projects from pygen profile 'flow' (self-validated by running them); re
         "scope kind, statement/expression classes of the region, options, outcome)")
 ASSUMPTIONS = ["generated sub-expressions are pure and total, so evaluation order changes of pure code are invisible "
                "by construction", "programs are in fragment F of DESIGN.md 3.1"]
-BUDGET = {"quick": (240, 300), "thorough": (20000, 480)}
+BUDGET = {"quick": (240, 300), "thorough": (850, 900)}
 EXHAUSTIVE = {}
 CASE_TIMEOUT = 600
 REQUIRE = {"performed_and_run": 300, "refused": 50, "family_performed_and_run": 2000, "family_refused": 100}
